@@ -155,6 +155,30 @@ class NoUnary(object):
         return []
 
 
+class MemoCallable(object):
+    """a caller-side memo around a (slow) grammar function: the grammar callables are an INPUT of
+    depccg.parsing.run, and a user is free to pass a memoising one.  The memo is not pickled, so every
+    simulated worker starts with an empty one."""
+
+    def __init__(self, inner):
+        self.inner = inner
+        self._memo = {}
+
+    def __getstate__(self):
+        return {'inner': self.inner}
+
+    def __setstate__(self, state):
+        self.inner = state['inner']
+        self._memo = {}
+
+    def __call__(self, *args):
+        r = self._memo.get(args)
+        if r is None:
+            r = self.inner(*args)
+            self._memo[args] = r
+        return list(r)
+
+
 class FaultyCallable(object):
     """F4: raises at its k-th invocation (counted per process copy, as a real
     pickled callable would)"""
@@ -221,6 +245,8 @@ def build_from_spec(spec):
             for k, v in spec.get('unary') or []:
                 ut.setdefault(Category.parse(k), []).append(Category.parse(v))
         binary, unary = real_grammar(lang, seen, ut)
+        if spec.get('memo', True):
+            binary = MemoCallable(binary)
         head_uniform = True
     else:
         raise ValueError(kind)
